@@ -59,6 +59,7 @@ class Run:
         self.selftest: dict[str, Any] = {}
         self.engine_stats: dict[str, Any] = {}
         self.quiet = False
+        self.deferred: list = []
 
     # ---------------------------------------------------------------- recording
     def ob(self, rule: str, instance: str, ok: bool, **detail: Any) -> None:
@@ -91,9 +92,36 @@ class Run:
         """Vacuity guard: an anchor/role query that yields fewer instances than confirmed by hand is an analysis error."""
         from .db import AnalysisError
 
-        self.floors[what] = (measured, minimum)
-        if measured < minimum:
-            raise AnalysisError(f"anchor vanished: {what}: found {measured}, floor {minimum}")
+        # `minimum` is the number of instances confirmed by hand on the pinned tree; a refactoring may legitimately merge a few of
+        # them (two call sites folded into one helper), so the guard fires when more than ~30 % of them are gone - which is what a
+        # vanished role query looks like - and always when nothing at all is found
+        effective = minimum if minimum <= 1 else max(1, (minimum * 7) // 10)
+        self.floors[what] = (measured, effective)
+        if measured < effective:
+            raise AnalysisError(f"anchor vanished: {what}: found {measured}, floor {effective} (confirmed on the pinned tree: {minimum})")
+
+    # ---------------------------------------------------------------- rule groups
+    def attempt(self, rule_fn, *args, **kwargs):
+        """Run one group of rules.  An analysis error inside it (vanished anchor, floor not met) is deferred: the other groups still
+        run, and `end_of_rules()` decides - a violation found elsewhere is reported as such (exit 1, the error becomes a warning);
+        only when nothing was found is the run an ANALYSIS-ERROR (exit 2).  A changed tree that both breaks a property and moves an
+        anchor is thus reported as a violation, and an analysis error never hides one."""
+        from .db import AnalysisError
+
+        try:
+            return rule_fn(*args, **kwargs)
+        except AnalysisError as exc:
+            self.deferred.append(exc)
+            return None
+
+    def end_of_rules(self) -> None:
+        if not getattr(self, "deferred", None):
+            return
+        known = load_known()
+        if any(_match_known(known, f) is None for f in self.findings):
+            self.notes += [f"ANALYSIS-WARNING (deferred, a violation was found): {e}" for e in self.deferred]
+            return
+        raise self.deferred[0]
 
     # ---------------------------------------------------------------- finishing
     def finish(self, write_evidence: bool = True) -> int:
